@@ -88,8 +88,8 @@ def near_twin(draw, g):
             t = (k, draw(st.sampled_from([o for o in F.PREDS if o != s[1]]))) + s[2:]
         elif k == 'const':
             if draw(st.booleans()):
-                # a constant that agrees with the original in its first seven significant digits
-                t = ('const', s[1] + max(abs(s[1]), 1.0) * 2.0 ** -24)
+                # a constant that agrees with the original in its first seven (or thirteen, or all but the last binary) digits
+                t = ('const', s[1] + max(abs(s[1]), 1.0) * 2.0 ** draw(st.sampled_from([-24, -24, -44, -51])))
             else:
                 t = ('const', draw(st.sampled_from([c for c in (0.0, 1.0, 2.0, 0.5, 3.0) if c != s[1]])))
         elif k == 'tun':
